@@ -271,6 +271,10 @@ int main(int argc, char** argv)
         // time-outs that see the event late
         parse("1;waitFor;waitFor;isActive,isTriggered,trigger"),
         parse("0;waitForAct;waitForAct;isActive,isTriggered,activate"),
+        // late wake-ups: the event lands while several timed waiters sleep; each notified one may report a time-out
+        parse("1;waitFor;waitFor;waitFor;waitFor;isActive,isTriggered,isActive,trigger"),
+        parse("0;waitForAct;waitForAct;waitForAct;waitForAct;isActive,isTriggered,isActive,activate"),
+        parse("1;waitFor,waitFor;waitFor,waitFor;waitFor;isActive,isTriggered,trigger,reset,activate,trigger"),
         // spurious wake-ups need somebody else runnable
         parse("1;wait;wait;isActive,isTriggered,isActive,isTriggered,isActive,isTriggered,trigger"),
         parse("0;waitAct;waitAct;isActive,isTriggered,isActive,isTriggered,isActive,isTriggered,activate"),
